@@ -36,26 +36,29 @@ import tlc  # noqa: E402
 
 PID = "C15"
 TRACE_CFG = ("INIT TInit\nNEXT TNext\nINVARIANT Ok\nPOSTCONDITION Done\nCHECK_DEADLOCK FALSE\n"
-             "CONSTANTS MaxLines = 1\n MutKinds = {}\n Slots = {}\n MaxMut = 0\n Export = FALSE\n")
+             "CONSTANTS MaxLines = 1\n MutKinds = {}\n Slots = {}\n MaxMut = 0\n Export = FALSE\n"
+             " MaxSub = 0\n MaxSubDepth = 0\n")
 MODEL_INVS = ("NeverEscapes", "Accepts", "NotCompilable", "Compilable", "LinesInFile",
-              "FailOnlyWhereAllowed", "StagesInOrder")
+              "FailOnlyWhereAllowed", "StagesInOrder", "SubRunsInWindow", "SubRunsClosed", "SubRunsNested")
 SLOTS = 8
 
 
-def model_cfg(maxlines, maxmut, export):
+def model_cfg(maxlines, maxmut, export, maxsub):
   return ("SPECIFICATION Spec\nCONSTANTS MaxLines = %d\n MutKinds = {%s}\n Slots = {%s}\n MaxMut = %d\n Export = %s\n"
+          " MaxSub = %d\n MaxSubDepth = 2\n"
           % (maxlines, ",".join('"%s"' % k for k in progs_d.MUTATIONS), ",".join(map(str, range(SLOTS))),
-             maxmut, "TRUE" if export else "FALSE")
+             maxmut, "TRUE" if export else "FALSE", maxsub)
           + "".join("INVARIANT %s\n" % i for i in MODEL_INVS) + ("INVARIANT ExportInv\n" if export else ""))
 
 
 class TimedPool:
   """Process pool with a hard per-item time cap: a worker that exceeds it is killed and replaced."""
 
-  def __init__(self, procs):
+  def __init__(self, procs, keep=False):
     self.ctx = mp.get_context("spawn")
     self.procs = procs
     self.workers = []
+    self.keep = keep            # keep the workers alive between map() calls (close() ends them)
 
   def _spawn(self):
     a, b = self.ctx.Pipe()
@@ -71,11 +74,11 @@ class TimedPool:
     out = [None] * n
     nxt = 0
     done = 0
-    self.workers = [self._spawn() for _ in range(min(self.procs, max(1, n)))]
+    self.workers += [self._spawn() for _ in range(min(self.procs, max(1, n)) - len(self.workers))]
     try:
       while done < n:
         conns = [w["conn"] for w in self.workers]
-        for c in mpc.wait(conns, timeout=0.25):
+        for c in mpc.wait(conns, timeout=0.05):
           w = next(x for x in self.workers if x["conn"] is c)
           try:
             idx, rec = c.recv()
@@ -107,16 +110,21 @@ class TimedPool:
             w["conn"].send((nxt, items[nxt]))
             nxt += 1
     finally:
-      for w in self.workers:
-        try:
-          w["conn"].send(None)
-        except (OSError, BrokenPipeError):
-          pass
-      for w in self.workers:
-        w["p"].join(2)
-        if w["p"].is_alive():
-          w["p"].kill()
+      if not self.keep:
+        self.close()
     return out
+
+  def close(self):
+    for w in self.workers:
+      try:
+        w["conn"].send(None)
+      except (OSError, BrokenPipeError):
+        pass
+    for w in self.workers:
+      w["p"].join(2)
+      if w["p"].is_alive():
+        w["p"].kill()
+    self.workers = []
 
 
 def judge(run, recs, items_by_label):
@@ -231,17 +239,24 @@ def main():
     return run.finish()
 
   # ---- 1. the design: the allowed behaviours satisfy C15; export the mutation plan
-  r = tlc.run("Outcome", model_cfg(3, 2 if thorough else 1, True), workers=1, timeout=3000, seed=run.seed)
-  if r.violated or r.rc != 0:
-    raise common.Machinery("Outcome.tla violates %s:\n%s" % (r.violated, (r.error_trace or r.out[-3000:])[:3000]))
-  run.put("states", r.distinct)
-  run.put("transitions", r.generated)
+  # (a) inputs x mutation plans x main pipeline (no sub-runs: `muts` only multiplies the state space),
+  #     exports the plans; (b) all inputs x pipeline with sub-runs (annotation evaluation) nested <= 2
+  r = tlc.run("Outcome", model_cfg(3, 2 if thorough else 1, True, 0), workers=1, timeout=3000, seed=run.seed)
+  r2 = tlc.run("Outcome", model_cfg(3, 0, False, 11 if thorough else 9), workers=4, timeout=3000, seed=run.seed)
+  for rr in (r, r2):
+    if rr.violated or rr.rc != 0:
+      raise common.Machinery("Outcome.tla violates %s:\n%s" % (rr.violated, (rr.error_trace or rr.out[-3000:])[:3000]))
+  common.require(r2.distinct > 10000, "sub-run model too small: %d states" % r2.distinct)
+  run.put("states", r.distinct + r2.distinct)
+  run.put("transitions", r.generated + r2.generated)
+  run.put("model_states_mutation_part", r.distinct)
+  run.put("model_states_subrun_part", r2.distinct)
   plans = sorted({json.dumps(c["muts"]) for c in r.cases if c["muts"]})
   plans = [json.loads(p) for p in plans]
   common.require(len(plans) >= 4 * SLOTS, "mutation plan export too small: %d" % len(plans))
   random.Random(run.seed).shuffle(plans)
   run.put("mutation_plans", len(plans))
-  print("  [model] states=%d plans=%d t=%.0fs" % (r.distinct, len(plans), time.time() - run.t0), flush=True)
+  print("  [model] states=%d+%d plans=%d t=%.0fs" % (r.distinct, r2.distinct, len(plans), time.time() - run.t0), flush=True)
 
   # ---- 2. exploration
   items = build_inputs(run, thorough, plans)
@@ -273,6 +288,12 @@ def main():
       run.add("results_with_errors")
     if not rec["compiles"] and rec["cline"] == 0:
       run.add("oracle_blames_no_line")
+    ncomp = sum(1 for e in rec["events"] if e[0] == "Compile")
+    if ncomp > 1:
+      run.add("runs_with_subruns")       # annotation / type-comment evaluation (Outcome!AllowedSub)
+      run.add("subruns", ncomp - 1)
+      if any(e[0] == "Compile" and e[1] != "ok" for e in rec["events"][3:]):
+        run.add("subruns_compile_error_caught")
     last = rec["events"][-1] if rec["events"] else ["", ""]
     if last[1] == "ConstantError":
       run.add("fold_errors")
@@ -294,7 +315,8 @@ def main():
                   "cline": r["cline"], "events": r["events"], "errs": r["errs"]})
   need = {"compilable": 2500 if thorough else 300, "not_compilable": 2500 if thorough else 150,
           "results_with_errors": 500 if thorough else 80, "inputs_stdlib": 40 if thorough else 6,
-          "inputs_upstream": 1000 if thorough else 100, "fold_errors": 2, "skipped": 1}
+          "inputs_upstream": 1000 if thorough else 100, "fold_errors": 2, "skipped": 1,
+          "runs_with_subruns": 200 if thorough else 20, "subruns_compile_error_caught": 1}
   for k, v in need.items():
     common.require(run.cov.get(k, 0) >= v, "vacuity: %s = %d < %d" % (k, run.cov.get(k, 0), v))
   run.assumptions += [
